@@ -30,7 +30,7 @@ var propC20 = &modelProp{
 	nt: func(e *Env) bool {
 		return e.flags["snapshot-write-inside-range"] > 0 || e.flags["snapshot-member-deleted"] > 0
 	},
-	rule: "a search (all operators, single leaf or And/Or chain, indexed and unindexed last path) is evaluated, then 1-6 generated writes are performed (inserts placed at/near the probe, key-moving updates on the searched path, deletes and resurrections of members and non-members, small batches, bursts of inserts that exceed the index slice capacity), then the outstanding search is consumed (Collect or Assign). Oracle with M = model match set at evaluation time and D = members deleted since: Len() unchanged; D empty => collected uuid multiset == M exactly; else an error or a duplicate-free S with M\\D subset S subset M; never an object outside M. Non-trivial: >=1 intervening write lands inside the key range of the result, or a member is deleted. Distinct by program hash.",
+	rule: "a search (all operators, single leaf or And/Or chain, indexed and unindexed last path) is evaluated, then 1-6 generated writes are performed (inserts placed at/near the probe, key-moving updates on the searched path, deletes and resurrections of members and non-members, small batches, bursts of inserts that exceed the index slice capacity), then the outstanding search is consumed (Collect or Assign). Oracle with M = model match set at evaluation time and D = members deleted since: Len() unchanged; D empty => collected uuid multiset == M exactly; else an error or a duplicate-free S with M\\D subset S subset M; never an object outside M. Derived searches: a refinement (And/Or) derived from the outstanding search BEFORE the writes is itself a snapshot and must not be disturbed by a sibling derived AFTER the writes; a refinement derived after the writes works on the snapshot (And never returns an object outside M); dedicated shapes: a parent matching every object followed by as many deletes as inserts, and a parent that is itself an Or product over tag-like values with two sibling Ors. Non-trivial: >=1 intervening write lands inside the key range of the result, or a member is deleted. Distinct by program hash.",
 }
 
 func init() { propC20.register() }
@@ -287,7 +287,7 @@ var propC14 = &modelProp{
 	nt: func(e *Env) bool {
 		return e.flags["isolation-deep-shape"] > 0 && e.flags["isolation-mutated-caller-object"] > 0
 	},
-	rule: "documents with generated shapes (nil / empty / non-empty slices and maps, pointer chains *T and **T, slices of pointers incl. nil elements, maps of slices of pointers, interface{} holding nil/scalars/maps/slices, arrays of scalars, nested structs by value and pointer), cache and async on and off. After every accepted InsertOrUpdate the caller's object is mutated through reflection at every reachable location; after every op each stored object is read twice (address sets of all reachable pointers/slices/maps must be disjoint), the first copy is mutated everywhere, a third read must equal the canonical JSON recorded at store time and share nothing; the same for objects returned by All and Search.Collect; all read paths are compared with the model after every op; with the cache on a second handle reads every object from its file and the cached read must equal it. Non-trivial: a stored shape with a non-nil pointer or non-empty container at depth >= 2 and >= 1 mutated location in a caller object. Distinct by program hash.",
+	rule: "documents with generated shapes (nil / empty / non-empty slices and maps, pointer chains *T and **T, slices of pointers incl. nil elements, maps of slices of pointers, interface{} holding nil/scalars/maps/slices, arrays of scalars, nested structs by value and pointer), cache and async on and off. After every accepted InsertOrUpdate the caller's object is mutated through reflection at every reachable location; after every op each stored object is read twice (address sets of all reachable pointers/slices/maps must be disjoint), the first copy is mutated everywhere, a third read must equal the canonical JSON recorded at store time and share nothing; the same for objects returned by All and Search.Collect; all read paths are compared with the model after every op; with the cache on a second handle reads every object from its file and the cached read must equal it. TestC14Deep repeats the store/mutate/read protocol on a second type whose containers are nested directly inside containers ([][]int, []map, map of maps, map of pointers incl. nil entries, *[]T, []*[]T, [][][]string, zero values held by interface{} slots) with cache and async on and off, and finally reads every object through a cold second handle (what reached the file must be what was stored, not what the caller turned it into). Non-trivial: a stored shape with a non-nil pointer or non-empty container at depth >= 2 and >= 1 mutated location in a caller object. Distinct by program hash.",
 	after: func(e *Env) {
 		// cached read == round trip through the file (second handle, cold cache)
 		if e.cfg.Async != nil {
